@@ -96,8 +96,27 @@ def gen_jobs(ctx: Ctx):
             if not ctx.quick or pos % 2 == 0:
                 jobs.append({"kind": "natural", "spec": sp, "old_spec": old_spec, "store": ("dir", "zip")[(g + pos) % 2],
                              "mode": m, "pre": p, "bad_pos": pos, "bad_kind": bad, "graph": 1000 + g})
+    # how the caller names the target (the property's target is the path save() resolves to).
+    # Every zip job against an existing target also runs with the suffix-less name: the existence check
+    # and the write must agree on the RESOLVED path (write-once / overwrite decided on the wrong name).
+    extra = []
+    seen_cfg = set()
+    for j in jobs:
+        if j["store"] == "zip" and j["pre"] != "none" and "path_form" not in j:
+            cfg = (j["kind"], j["mode"], j["pre"])
+            if ctx.quick and cfg in seen_cfg:
+                continue
+            seen_cfg.add(cfg)
+            extra.append(dict(j, path_form="noext"))
+    jobs += extra
+    forms = ["exact", "noext", "auto", "pathlib"]
     for i, j in enumerate(jobs):
         j["id"] = i
+        if "path_form" not in j:
+            f = forms[i % 4]
+            if f == "noext" and j["store"] != "zip":
+                f = "pathlib"
+            j["path_form"] = f
     return jobs
 
 
@@ -185,7 +204,7 @@ def fault_key(store, kind):
 def oracle(job, obs, kind):
     """the property text, on what the implementation left behind; returns [(key, what)]"""
     bad = []
-    where = "store=%s mode=%s pre-existing=%s" % (job["store"], job["mode"], job["pre"])
+    where = "store=%s mode=%s pre-existing=%s path-form=%s" % (job["store"], job["mode"], job["pre"], job.get("path_form", "exact"))
     if obs["class"] == "partial":
         bad.append((fault_key(job["store"], kind),
                     "after a failed save (%s; fault %s) load(target) returns a PARTIAL object: %s"
@@ -230,7 +249,7 @@ def check_results(ctx: Ctx, jobs, results):
         kinds_f, rows_f, (kinds_u, rows_u) = val      # Coq prints ((a, b), (c, d)) as (a, b, (c, d))
         res = results[job["id"]]
         cfg = "%s/%s/%s" % (job["store"], job["mode"], job["pre"])
-        base_replay = {"kind": job["kind"], "spec": job["spec"], "old_spec": job.get("old_spec"), "store": job["store"],
+        base_replay = {"kind": job["kind"], "spec": job["spec"], "old_spec": job.get("old_spec"), "store": job["store"], "path_form": job.get("path_form", "exact"),
                        "mode": job["mode"], "pre": job["pre"], "graph": job.get("graph")}
         oracle_failed_here = False
 
@@ -442,7 +461,7 @@ def replay(ctx: Ctx, path):
         return 0
     from .. import impl_C08 as I
     job = {"id": 0, "kind": "natural" if rp.get("natural") else ("single" if rp.get("inject_at") is not None else "enum"),
-           "spec": rp["spec"], "old_spec": rp.get("old_spec"), "store": rp["store"], "mode": rp["mode"], "pre": rp["pre"],
+           "spec": rp["spec"], "old_spec": rp.get("old_spec"), "store": rp["store"], "path_form": rp.get("path_form", "exact"), "mode": rp["mode"], "pre": rp["pre"],
            "inject_at": rp.get("inject_at"), "exc": rp.get("exc", "os")}
     scratch = tempfile.mkdtemp(prefix="verif_c08_replay_")
     try:
